@@ -26,15 +26,19 @@ TARGETS = [('fn', 'x', lambda: A.fn), ('Cls', 'x', lambda: A.Cls),
            ('Outer.Inner', 'y', lambda: A.Outer.Inner), ('Cls.meth', 'm', lambda: A.Cls.meth)]
 
 
+STATIC = ('vfx.gamma', 'vfx.zeta')    # decorator-registered at import: they stay registered
+
+
 def cleanup_vfx():
   with rt.native():
     for sel in list(gc._REGISTRY._selector_map):
       c = gc._REGISTRY[sel]
       mod = getattr(c.wrapped, '__module__', '') or ''
-      if mod.startswith('vfx'):
+      if mod.startswith('vfx') and mod not in STATIC:
         gc._REGISTRY.pop(sel)
     for obj in list(gc._INVERSE_REGISTRY):
-      if (getattr(obj, '__module__', '') or '').startswith('vfx'):
+      m_ = getattr(obj, '__module__', '') or ''
+      if m_.startswith('vfx') and m_ not in STATIC:
         del gc._INVERSE_REGISTRY[obj]
     gc._RENAMED_SELECTORS.clear()
     del A.CALLS[:]
